@@ -1181,6 +1181,19 @@ class StateEngine(object):
             Initialise the branch_results object for the Map or Parallel State
             that we are collecting results for if it doesn't already exist.
             """
+            if not current_id in all_branch_results and "Length" not in branch_info:
+                """
+                The event that re-enters a Map state for its next block of
+                MaxConcurrency carries only the ID and the Range. If the
+                results of that Map state are not known any more, the Map
+                state has been completed and forgotten (after a restart the
+                redelivered events of a finished block publish such an event a
+                second time): there is nothing left to re-enter.
+                """
+                if not all_branch_results:
+                    del self.branch_metadata[execution_arn]
+                return True
+
             if not current_id in all_branch_results:
                 #print("Initialise the branch_results object")
                 length = branch_info["Length"]
